@@ -16,7 +16,9 @@ for name in sorted(os.listdir(os.path.join(V, 'seeded'))):
                 break
     det = json.load(open(os.path.join(d, 'detection.json'))) if os.path.exists(os.path.join(d, 'detection.json')) else {}
     how = det.get('first_violation', '') or ' '.join(det.get('tail', [])[-1:])
-    how = how.replace('|', '\\|')[:160]
+    for op, r in (det.get('other_checks') or {}).items():
+        how = (how + ' — ' if how else '') + 'also run against %s: %s' % (op, r.get('verdict'))
+    how = how.replace('|', '\\|')[:220]
     rows.append('| %s | %s | %s | %s %s | **%s** (%ss) | %s |' % (name, title.replace('|', '\\|')[:150], 'yes' if meta.get('confirmed') else 'NO',
                                                           det.get('property', meta.get('property')), det.get('tier', ''), det.get('verdict', 'not run'), det.get('seconds', '-'), how))
 table = '\n'.join(rows)
